@@ -288,7 +288,9 @@ class RealRun(object):
                 sids = self.segment(t, payload_messages(p), used)
                 used.update(sids or [])
                 self.sent_payloads.append((t, payload_messages(p)))
-                ps.append("%d/%d=%s" % (t, p.partition, "?" if sids is None else ",".join(str(s) for s in sids)))
+                wire = ",".join("%s.%s" % ("N" if k is None else (k.hex() or "-"), "n" if v is None else len(v))
+                                for k, v in payload_messages(p)) or "-"
+                ps.append("%d/%d=%s#%s" % (t, p.partition, "?" if sids is None else ",".join(str(s) for s in sids), wire))
             extra = "" if (acks == self.cfg["acks"] and foe is False and timeout == self.producer.ack_timeout) else " BADARGS"
             return "produce %d %s%s" % (rid, ";".join(ps) or "-", extra)
         if k == "cancelreq":
@@ -542,7 +544,7 @@ def _parse_produce(line):
         return None
     out = []
     for p in a[2].split(";"):
-        tp, sids = p.split("=")
+        tp, sids = p.split("#")[0].split("=")
         if sids == "?":
             return None
         out.append((tp, [int(x) for x in sids.split(",")] if sids != "-" else []))
